@@ -15,6 +15,37 @@ theorem advance_noop (iv n : Nat) (s : St) (t : Nat) (h : t < s.wake) : advance 
     have h2 : ¬ s.wake = t := by omega
     simp [h1, h2]
 
+/-- generated facts: an unanswered ping keeps its time stamp; only the answer to the outstanding ping is timed. -/
+@[simp] theorem gen_pingStamp : Gen.appPingStampWhenAnswered = true := by decide
+@[simp] theorem gen_pongStamp : Gen.appPongStampWhenOutstanding = true := by decide
+
+/-- what the ping thread leaves alone while a ping is unanswered: both stamps (further pings do not move
+    `last_ping_tm`), the main loop's clock and the arrivals. -/
+theorem fire_unanswered (iv : Nat) (s : St) (hf : s.first = false) (hu : s.lastPong < s.lastPing) :
+    (fire iv s).lastPing = s.lastPing ∧ (fire iv s).lastPong = s.lastPong ∧ (fire iv s).now = s.now ∧
+    (fire iv s).arr = s.arr ∧ (fire iv s).first = false := by
+  simp [fire, hf, hu]
+
+theorem advance_unanswered (iv : Nat) : ∀ (n : Nat) (s : St) (t : Nat), s.first = false → s.lastPong < s.lastPing →
+    (advance iv n s t).lastPing = s.lastPing ∧ (advance iv n s t).lastPong = s.lastPong ∧
+    (advance iv n s t).now = s.now ∧ (advance iv n s t).arr = s.arr ∧ (advance iv n s t).first = false := by
+  intro n
+  induction n with
+  | zero => intro s t hf _; exact ⟨rfl, rfl, rfl, rfl, hf⟩
+  | succ m ih =>
+    intro s t hf hu
+    rw [advance]
+    split
+    · obtain ⟨f1, f2, f3, f4, f5⟩ := fire_unanswered iv s hf hu
+      obtain ⟨a1, a2, a3, a4, a5⟩ := ih (fire iv s) t f5 (by rw [f1, f2]; exact hu)
+      exact ⟨a1.trans f1, a2.trans f2, a3.trans f3, a4.trans f4, a5⟩
+    · split
+      · split
+        · exact fire_unanswered iv { s with sched := _ } hf hu
+        · exact ⟨rfl, rfl, rfl, rfl, hf⟩
+        · exact ⟨rfl, rfl, rfl, rfl, hf⟩
+      · exact ⟨rfl, rfl, rfl, rfl, hf⟩
+
 theorem target_le (to : Nat) (s : St) : target to s ≤ s.now + to := by
   unfold target
   split
@@ -46,6 +77,20 @@ theorem consume_silent (s : St) (h : Silent s.arr) :
     split
     · exact ⟨rfl, rfl, rfl, rfl, rfl, hr, by simp, rfl⟩
     · exact ⟨rfl, rfl, rfl, rfl, rfl, by simpa [harr] using h, by simp [harr], rfl⟩
+
+/-- which arrivals `consume` leaves depends on the arrivals and the clock only -/
+theorem consume_arr_congr (s s' : St) (ha : s.arr = s'.arr) (hn : s.now = s'.now) :
+    (consume s).arr = (consume s').arr := by
+  unfold consume
+  rw [← ha, ← hn]
+  cases harr : s.arr with
+  | nil => simpa [harr] using ha
+  | cons x rest =>
+    obtain ⟨a, k⟩ := x
+    simp only []
+    split
+    · cases k <;> rfl
+    · exact ha
 
 theorem consume_ready_length (s : St) (h : ready s = true) : (consume s).arr.length + 1 = s.arr.length := by
   unfold ready at h
@@ -96,20 +141,20 @@ theorem step_measure (to T : Nat) (s : St) (hto : 0 < to) (hr : ready s = false)
       subst hn
       simp [consume, harr, h2, h3]
 
-/-- the window after the ping sent at `T`: the peer is silent, the next ping is more than 2·to away -/
+/-- the window after the ping sent at `T` that is not answered: `last_ping_tm = T` (and it stays: the pings that follow do
+    not move it), no pong since, the peer is silent -/
 structure Window (iv to T : Nat) (s : St) : Prop where
   lp : s.lastPing = T
   tpos : T ≠ 0
   lq : s.lastPong < T
   nf : s.first = false
-  wk : s.wake = T + iv
   lo : T ≤ s.now
   hi : s.now ≤ T + to
   silent : Silent s.arr
 
-/-- **detection inside the window** — from any state in the window after an unanswered ping at `T`, with
-    `iv > 2·to`: the loop reports a timeout at some tick in `(T + to, T + 2·to]`. -/
-theorem detect_in_window (iv to horizon T : Nat) (h2 : 2 * to < iv) (hto : 0 < to) (hz : T + 2 * to ≤ horizon) :
+/-- **detection inside the window** — from any state in the window after an unanswered ping at `T`, for EVERY interval:
+    the loop reports a timeout at some tick in `(T + to, T + 2·to]`. -/
+theorem detect_in_window (iv to horizon T : Nat) (hto : 0 < to) (hz : T + 2 * to ≤ horizon) :
     ∀ (fuel : Nat) (s : St), Window iv to T s → s.arr.length + (if s.now ≤ T then 1 else 0) + 1 ≤ fuel →
       ∃ r, (loop iv to horizon fuel s).2 = some r ∧ T + to < r ∧ r ≤ T + 2 * to := by
   intro fuel
@@ -138,39 +183,43 @@ theorem detect_in_window (iv to horizon T : Nat) (h2 : 2 * to < iv) (hto : 0 < t
         simp [this]
       rw [hnf]
       simp only [Bool.false_eq_true, ↓reduceIte]
-      refine ih (consume s) ⟨c1.trans w.lp, w.tpos, by rw [c2]; exact w.lq, c5.trans w.nf, c4.trans w.wk,
+      refine ih (consume s) ⟨c1.trans w.lp, w.tpos, by rw [c2]; exact w.lq, c5.trans w.nf,
         by rw [c3]; exact w.lo, by rw [c3]; exact w.hi, c6⟩ ?_
       rw [c3]; omega
-    · -- the loop blocks in select until `t`
+    · -- the loop blocks in select until `t`; pings that fall due meanwhile do not move `last_ping_tm`
       have hr' : ready s = false := by simpa using hr
-      have hadv : advance iv (target to s + 2) s (target to s) = s :=
-        advance_noop iv _ s _ (by rw [w.wk]; have := w.hi; omega)
-      have hi : iter iv to s = consume { s with now := target to s } := by simp [iter, hr', hadv]
+      obtain ⟨a1, a2, a3, a4, a5⟩ := advance_unanswered iv (target to s + 2) s (target to s) w.nf (by rw [w.lp]; exact w.lq)
+      generalize hs1 : advance iv (target to s + 2) s (target to s) = s1 at a1 a2 a3 a4 a5
+      have hi : iter iv to s = consume { s1 with now := target to s } := by simp [iter, hr', hs1]
       rw [hi]
-      obtain ⟨c1, c2, c3, c4, c5, c6, c7, _⟩ := consume_silent { s with now := target to s } w.silent
+      have hsil : Silent ({ s1 with now := target to s } : St).arr := by simpa [a4] using w.silent
+      obtain ⟨c1, c2, c3, c4, c5, c6, c7, _⟩ := consume_silent { s1 with now := target to s } hsil
       simp only [] at c1 c2 c3 c4 c5 c6 c7
       by_cases hlate : target to s > T + to
       · -- the check fires
-        have hcf : checkFails to (consume { s with now := target to s }) = true := by
+        have hcf : checkFails to (consume { s1 with now := target to s }) = true := by
           unfold checkFails
-          rw [c1, c2, c3, w.lp]
-          have a1 : target to s - T > to := by omega
-          have a2 : s.lastPong < T := w.lq
-          simp [w.tpos, a1, a2]
+          rw [c1, c2, c3, a1, a2, w.lp]
+          have b1 : target to s - T > to := by omega
+          have b2 : s.lastPong < T := w.lq
+          simp [w.tpos, b1, b2]
         rw [hcf]
         simp only [↓reduceIte]
         exact ⟨_, rfl, by rw [c3]; omega, by rw [c3]; have := w.hi; omega⟩
-      · have hcf : checkFails to (consume { s with now := target to s }) = false := by
+      · have hcf : checkFails to (consume { s1 with now := target to s }) = false := by
           unfold checkFails
-          rw [c1, c3, w.lp]
+          rw [c1, c3, a1, w.lp]
           have : ¬ target to s - T > to := by omega
           simp [this]
         rw [hcf]
         simp only [Bool.false_eq_true, ↓reduceIte]
-        refine ih _ ⟨c1.trans w.lp, w.tpos, by rw [c2]; exact w.lq, c5.trans w.nf, c4.trans w.wk,
+        refine ih _ ⟨by rw [c1, a1]; exact w.lp, w.tpos, by rw [c2, a2]; exact w.lq, by rw [c5]; exact a5,
           by rw [c3]; have := w.lo; omega, by rw [c3]; omega, c6⟩ ?_
         rw [c3]
-        have := step_measure to T s hto hr' w.lo (by omega)
+        -- the measure: `consume` of the state with the same arrivals and the new clock
+        have hm := step_measure to T s hto hr' w.lo (by omega)
+        have hsame : (consume { s1 with now := target to s }).arr.length = (consume { s with now := target to s }).arr.length := by
+          rw [consume_arr_congr { s1 with now := target to s } { s with now := target to s } a4 rfl]
         omega
 
 end WS.Lemmas.Keepalive
@@ -210,7 +259,7 @@ def pingTimes (iv n : Nat) : List Nat := (List.range n).map fun k => (k + 2) * i
 structure PInv (iv : Nat) (s : St) : Prop where
   fst : s.first = true → s.pings = [] ∧ s.wake = iv ∧ s.lastPing = 0
   rest : s.first = false → s.wake = (s.pings.length + 2) * iv ∧ s.pings = pingTimes iv s.pings.length ∧
-    s.lastPing = (if s.pings.length = 0 then 0 else s.wake - iv)
+    (s.pings.length = 0 → s.lastPing = 0) ∧ s.lastPing + iv ≤ s.wake
 
 theorem pingTimes_succ (iv n : Nat) : pingTimes iv (n + 1) = pingTimes iv n ++ [(n + 2) * iv] := by
   simp [pingTimes, List.range_succ]
@@ -221,17 +270,16 @@ theorem pinv_fire (iv : Nat) (s : St) (h : PInv iv s) : PInv iv (fire iv s) := b
   · obtain ⟨h1, h2, h3⟩ := h.fst hf
     simp only [hf, ↓reduceIte]
     refine ⟨by simp, fun _ => ?_⟩
-    simp only [h1, List.length_nil, Nat.zero_add, h2, pingTimes, List.range_zero, List.map_nil, ↓reduceIte, h3,
-      true_and]
-    exact ⟨by omega, trivial⟩
+    simp only [h1, List.length_nil, Nat.zero_add, h2, pingTimes, List.range_zero, List.map_nil, h3, true_and]
+    exact ⟨by omega, fun _ => trivial, by omega⟩
   · have hf' : s.first = false := by simpa using hf
-    obtain ⟨h1, h2, h3⟩ := h.rest hf'
+    obtain ⟨h1, h2, h3, h4⟩ := h.rest hf'
     simp only [hf', Bool.false_eq_true, ↓reduceIte]
     refine ⟨by simp [hf'], fun _ => ?_⟩
     simp only [List.length_append, List.length_singleton]
-    refine ⟨by rw [h1]; simp [Nat.add_mul]; omega, ?_, ?_⟩
+    refine ⟨by rw [h1]; simp [Nat.add_mul]; omega, ?_, by omega, ?_⟩
     · rw [pingTimes_succ, ← h2, h1]
-    · simp
+    · split <;> omega
 
 theorem pinv_advance (iv : Nat) : ∀ (n : Nat) (s : St) (t : Nat), PInv iv s → PInv iv (advance iv n s t) := by
   intro n
